@@ -2,7 +2,7 @@ CONSTANT P = 13
 CONSTANT NS = 1
 CONSTANT InitOn = "first"
 CONSTANT Disabled = "last_ldc"
-CONSTANT MaxLen = 2
+CONSTANT MaxLen = 1
 CONSTANT OutVals = {0, 1}
 CONSTANT Vals = {0, 1, 2}
 CONSTANT LuRows = {1}
